@@ -274,19 +274,33 @@ class MultiAxisLabels(Contract):
                 if k == 1 and kinds not in ("fff", "OOO"):
                     continue
                 yield {"name": "members%d-%s" % (k, kinds[:k]), "k": k, "kinds": kinds[:k]}
+        # integer labels that no float can hold (time stamps in nanoseconds) next to float labels: each member label must come back
+        # EXACTLY, as the member axis has it
+        yield {"name": "members2-if-beyond-2**53", "k": 2, "kinds": "if", "big": True}
+        yield {"name": "members3-fiO-beyond-2**53", "k": 3, "kinds": "fiO", "big": True}
 
     def setup(self, S, case):
         members = [S.array1d("m%d" % i, case["kinds"][i]) for i in range(case["k"])]
         return {"members": members}
 
+    def _members(self, env):
+        import numpy as np
+        out = []
+        for i, L in enumerate(env["members"]):
+            L = np.asarray(L)
+            if env["case"].get("big") and env["case"]["kinds"][i] == "i":
+                L = L.astype(np.int64) + (1600000000000000001 if L.size else 0)
+            out.append(L)
+        return out
+
     def call(self, fn, env):
         S = env["S"]
-        return _multiaxis()(*[S.da.Axis(L, "g%d" % i) for i, L in enumerate(env["members"])])
+        return _multiaxis()(*[S.da.Axis(L, "g%d" % i) for i, L in enumerate(self._members(env))])
 
     def post(self, S, case, env, result):
         import numpy as np
         k = case["k"]
-        Ls = [list(np.asarray(L)) for L in env["members"]]
+        Ls = [list(L) for L in self._members(env)]
         total = 1
         for L in Ls:
             total *= len(L)
@@ -301,6 +315,8 @@ class MultiAxisLabels(Contract):
                 got = vals[g]
                 got = tuple(got) if k > 1 else got
                 ok = ok and got == want and (k == 1 or all(isinstance(x, str) == isinstance(y, str) for x, y in zip(got, want)))
+                if case.get("big") and k > 1:
+                    ok = ok and all(int(x) == int(y) for x, y, kd in zip(got, want, case["kinds"]) if kd == "i")      # exact, not float-equal
         yield "labels-are-the-member-label-combinations-in-row-major-order", ok
 
 
